@@ -51,6 +51,12 @@ theorem amp_unblocks_on_receive (p : Amp.Path) (n seg : Nat) (hn : 0 < n) (hv : 
   simp [Amp.step, Gen.antiAmpBlocked, Gen.antiAmpGateArg, hv]
   omega
 
+/-- probes sent into a space whose keys the peer has dropped are never acknowledged; their backoff does not carry over:
+    after `discard_space` the PTO backoff factor of the remaining spaces is 1, whatever it had grown to -/
+theorem discard_space_restarts_backoff (s : LossTimer.S) (clear : LossTimer.S → LossTimer.S) :
+    LossTimer.backoff (LossTimer.discardSpace s clear) = 1 := by
+  simp [LossTimer.discardSpace, LossTimer.backoff]
+
 -- non-vacuity
 example : LossTimer.covered ⟨false, false, false, 3, true, 0, 100, 25, false, ⟨false, none, none⟩, ⟨false, none, none⟩, ⟨true, some 7, none⟩⟩ := by
   simp [LossTimer.covered]
